@@ -128,7 +128,7 @@ def l73b(rounds):
     cb = Rec('user')
     payload, L = rope.blob('p', 0, None)
     assume(L <= Packet.MAX_PAYLOAD_SIZE)
-    c.send(payload, RetryMode.RETRY_ON_TIMEOUT, cb)
+    c.send(payload, proto.retry_arg(RetryMode.RETRY_ON_TIMEOUT), cb)
     sent = []
     for r_ in range(rounds):
         pkt = c._build_packet()
@@ -172,7 +172,7 @@ def l73c(mode, maxfrag):
     assume(L > Packet.MAX_PAYLOAD_SIZE)
     assume(L <= Packet.MAX_PAYLOAD_SIZE + (maxfrag - 1) * Packet.MAX_FRAGMENT_SIZE)
     retry = {'none': RetryMode.NONE, 'retry': RetryMode.RETRY_ON_TIMEOUT}[mode]
-    c.send(payload, retry, cb)
+    c.send(payload, proto.retry_arg(retry), cb)
     nfrag = len(c.outgoing_messages)
     sent = []
     for i in range(nfrag + 1):
@@ -310,7 +310,7 @@ def l75(ticks, fragmented):
     else:
         assume(L <= Packet.MAX_PAYLOAD_SIZE)
     cb = Rec('user')
-    tx.send(payload, RetryMode.RETRY_ON_TIMEOUT, cb)
+    tx.send(payload, proto.retry_arg(RetryMode.RETRY_ON_TIMEOUT), cb)
     lossy = 2
     for tick in range(ticks):
         clock.advance(0.6)
